@@ -213,8 +213,8 @@ def shards(tier):
         for persistent in (False, True):
             for first in KINDS:
                 for second in KINDS:
-                    out.append(('inbound', {'profile': profile, 'persistent': persistent, 'k': 5 if T else 3, 'first': first, 'second': second,
-                                            'vary': T, 'ver': 311, 'rich': 1}))
+                    out.append(('inbound', {'profile': profile, 'persistent': persistent, 'k': 4 if T else 3, 'first': first, 'second': second,
+                                            'vary': False, 'ver': 311, 'rich': 1}))
     out.append(('inbound', {'profile': 'pubsubs', 'persistent': True, 'k': 3, 'first': 'PUBLISH', 'second': 'PUBREL', 'ver': 31}))
     if not T:
         # an exchange interrupted by a loss, then two more steps (e.g. the identifier reused on the next connection and released)
@@ -230,7 +230,7 @@ META = {
             'Unicode range, payload byte(s); PUBREL with symbolic identifier; loss + rebuilt protocol + connect(clean symbolic) + CONNACK}; a receiver model '
             'written from the statement tracks the open QoS 2 exchanges; non-trivial = counters',
     'bounds': {'quick': 'k=3 (k=4 for histories starting PUBLISH, loss + reconnect); topic 1 symbolic code point (whole Unicode range in the first PUBLISH of a history, printable ASCII later), payload 1 symbolic byte; subscriber and pubsubs; first session clean or persistent',
-               'thorough': 'k=5; topic 1..2 code points, payload 0..2 bytes'},
+               'thorough': 'k=4'},
     'stubs': ['fake transport', 'twisted task.Clock', 'jitter: fixed sequence'],
     'outside': ['histories longer than k steps', 'after a clean-session reconnect the fate of a message stored by the previous connection is left open (0 or 1 delivery)',
                 'differing contents in repeated QoS 2 PUBLISH packets of one exchange: any of them may be delivered'],
